@@ -4,12 +4,20 @@ import common
 
 def main():
     ok = True
-    for name in ("rt",):
+    for name in ("rt", "plug"):
         r, log = common.build_harness(name)
         print(f"[setup] cargo build harness/{name}: {'ok' if r else 'FAILED'}")
         if not r:
             print(log[-3000:])
             ok = False
+    # generated tables (T-data) so that the first check does not pay for the whole Lean build
+    try:
+        import tables
+        tables.gen_a64(); tables.gen_rv(); tables.gen_x64()
+        r, log = common.lake_build(["DynasmVerif.Props.C19"])
+        print(f"[setup] table theorems: {'ok' if r else 'FAILED'}")
+    except Exception as e:
+        print(f"[setup] table generation failed: {e}")
     r, log = common.lake_build(["DynasmVerif", "driver"])
     print(f"[setup] lake build: {'ok' if r else 'FAILED'}")
     if not r:
